@@ -11,7 +11,14 @@ OVERRIDE_STATUS = {
     "C04-1": ("superseded", "neutralised by repo fix ee5c958 (a link into the cache is accepted on retry): the author's demonstration "
                             "passes with and without the change on the current tree, i.e. the property holds with the change applied; "
                             "the check rightly stays quiet. Kept for the record, not counted."),
-    "C04-2": ("valid", "scenario A of the demonstration is deterministic; its scenario B injects a fault at 'the 2nd rename' per thread under "
+    "C05-1": ("superseded", "neutralised by repo fix 47f50cf: the change relied on the status of an untracked EMPTY directory being ContentsMatch=true to be "
+                            "folded into its parent; since the fix an uncommitted directory is never up to date, so the change no longer alters any verdict — "
+                            "the demonstration passes with and without it. (It was caught with a concrete input before that fix.) Kept for the record, not counted."),
+    "C02-1": ("valid", "ported by hand to the current HEAD (commitBytes gained the temp-file cleanup of fix 2671af9); same dropped flush error."),
+    "C03-1": ("valid", "ported by hand to the current HEAD (commitBytes changed by fix 2671af9); same flush after the rename."),
+    "C03-2": ("valid", "ported by hand to the current HEAD (commitBytes changed by fix 2671af9); same early removal of the workspace file."),
+    "C03-3": ("valid", "ported by hand to the current HEAD (Stage.ToFile amended by a7bf7f5, which is the correct version of the same idea); same in-place write through the link."),
+    "C04-2": ("valid", "ported by hand to the current HEAD (fix 2671af9 is the correct version of the same idea: it removes only the temp file). Scenario A of the demonstration is deterministic; its scenario B injects a fault at 'the 2nd rename' per thread under "
                        "strace -f and therefore depends on which OS thread issues the renames (on the unchanged tree it can hit a manifest "
                        "rename instead; before fix 2671af9 that left a stray temp file which the demonstration counted)."),
     "C08-1": ("valid", "ported by hand to the current HEAD (run.go was changed by fix 042d085); same memo, same slip."),
